@@ -3,7 +3,7 @@
 //! Real engine process.  Sessions of 1..5 (position, go <limits>) pairs; limits are any
 //! mix of depth / nodes / movetime / wtime / btime / winc / binc including 0, 1 and tiny
 //! budgets.  Oracle: exactly one `bestmove` per `go`, legal per the rules oracle, before
-//! the deadline the limits allow (+2 s), then `isready` -> `readyok`.
+//! the deadline the limits allow (+3 s), then `isready` -> `readyok`.
 
 use super::frame::*;
 use super::oracle::{self as o, Game, Pos};
@@ -196,7 +196,7 @@ pub fn steps_json(steps: &[Step]) -> Value {
     json!({"steps": steps.iter().map(|s| json!({"position": s.position, "go": s.go, "fen_after": s.fen_after, "time_bound_ms": s.time_bound_ms})).collect::<Vec<_>>()})
 }
 
-pub const ALLOWANCE_MS: u64 = 2000;
+pub const ALLOWANCE_MS: u64 = 3000;
 pub const UNBOUNDED_DEADLINE_MS: u64 = 60_000;
 
 /// Run one session against a fresh engine process.
@@ -252,8 +252,8 @@ pub fn run_session(ctx: &Ctx, steps: &[Step], rep: &mut Report) -> Result<(), Vi
                 return Err(fail("in-time", format!("in-time/no-bestmove/{limit_class}"), format!("go #{} '{}' at {}: no bestmove within {} ms", i + 1, st.go, st.fen_after, deadline.as_millis()), &eng));
             }
         }
-        if !eng.ready(Duration::from_secs(2)) {
-            return Err(fail("accepts-next", format!("accepts-next/no-readyok/{limit_class}"), format!("after go #{} '{}' the engine did not answer isready within 2 s", i + 1, st.go), &eng));
+        if !eng.ready(Duration::from_secs(3)) {
+            return Err(fail("accepts-next", format!("accepts-next/no-readyok/{limit_class}"), format!("after go #{} '{}' the engine did not answer isready within 3 s", i + 1, st.go), &eng));
         }
         for c in &st.classes {
             rep.class(&format!("go:{c}"));
@@ -333,9 +333,9 @@ pub fn replay(ctx: &Ctx, case: &Value) -> Report {
 }
 
 pub const LEVEL: &str = "exploration";
-pub const RULE: &str = "UCI sessions against the real engine binary: 1..5 consecutive (position, go) pairs; positions with >= 1 legal move from startpos / corpus / synthesised / pattern starts (in-check and near-stalemate positions included) plus up to 30 plies of play; limits = any subset of {depth 1..255, nodes 1..200000 log-spaced, movetime 0..400 ms, wtime/btime 0..60000 ms, winc/binc 0..100 ms}, with depth <= 5 when nothing else bounds the work. Oracle per go: exactly one bestmove line, legal per the rules oracle, arriving before min(movetime, own clock + increment) + 2 s (60 s when only depth/nodes bound the search); a search-thread panic on stderr settles 'no bestmove' at once; then isready -> readyok within 2 s; bestmove count == go count at session end. Non-trivial = a limit can cut the first iteration (nodes <= 2000, time bound <= 20 ms, depth <= 2, only the opponent's clock), or the position is in check or has <= 3 legal moves, or it is the 2nd+ go of a session; distinct by (position, go command).";
+pub const RULE: &str = "UCI sessions against the real engine binary: 1..5 consecutive (position, go) pairs; positions with >= 1 legal move from startpos / corpus / synthesised / pattern starts (in-check and near-stalemate positions included) plus up to 30 plies of play; limits = any subset of {depth 1..255, nodes 1..200000 log-spaced, movetime 0..400 ms, wtime/btime 0..60000 ms, winc/binc 0..100 ms}, with depth <= 5 when nothing else bounds the work. Oracle per go: exactly one bestmove line, legal per the rules oracle, arriving before min(movetime, own clock + increment) + 3 s (60 s when only depth/nodes bound the search); a search-thread panic on stderr settles 'no bestmove' at once; then isready -> readyok within 3 s; bestmove count == go count at session end. Non-trivial = a limit can cut the first iteration (nodes <= 2000, time bound <= 20 ms, depth <= 2, only the opponent's clock), or the position is in check or has <= 3 legal moves, or it is the 2nd+ go of a session; distinct by (position, go command).";
 pub const ASSUMPTIONS: &[&str] = &[
     "the rules oracle decides legality of the answer",
-    "deadlines are generous stand-ins for 'in time' (limit + 2 s); a harness-side spawn failure or a missing first readyok is reported as inconclusive (exit 2), never as a violation",
+    "deadlines are generous stand-ins for 'in time' (limit + 3 s); a harness-side spawn failure or a missing first readyok is reported as inconclusive (exit 2), never as a violation",
     "8 engine processes run concurrently on 16 cores",
 ];
